@@ -138,7 +138,7 @@ package engine
 //@   requires typing: compileEnvOK()
 //@   unfold compileEnvOK() == compileEnvFacts()
 //@   requires typing: dmap(d)[mvKey(m.Name)] != nil ==> storedMatcher(dmap(d)[mvKey(m.Name)]) != nil
-//@   unfold MatchOK(boxed(m), got, dmap(d), r) == (kindOK(m.TypeMatches, rtype(got)) && (dmap(d)[mvKey(m.Name)] != nil ==> MatchOK(storedMatcher(dmap(d)[mvKey(m.Name)]), got, emptyMap(), r)))
+//@   unfold MatchOK(boxed(m), got, dmap(d), r) == (kindOK(m.TypeMatches, rtype(got)) && !((kind(got) == 22 || kind(got) == 20) && risnil(got)) && (dmap(d)[mvKey(m.Name)] != nil ==> MatchOK(storedMatcher(dmap(d)[mvKey(m.Name)]), got, emptyMap(), r)))
 //@   unfold MatchD(boxed(m), got, dmap(d), r) == ite(dmap(d)[mvKey(m.Name)] != nil, dmap(d), store(dmap(d), mvKey(m.Name), captured(m.Fset, got, r)))
 //@   ensures [C02,C08] a-metavariable-stands-for-code-that-is-there: ok && (kind(got) == 22 || kind(got) == 20) ==> !risnil(got)
 
